@@ -107,3 +107,68 @@ Proof. unfold py_len. now rewrite map_length. Qed.
 
 Lemma py_set_len_map_nodup_str {A} (f : A -> string) l : Z.eqb (py_set_len String.eqb (map f l)) (py_len l) = nodup_str (map f l).
 Proof. rewrite <- (py_len_map f l). apply py_set_len_nodup_str. Qed.
+
+(* ---- binary rendering (py_format_bin_zfill / py_format_bin_fspec, idiom format-bin-zfill) *)
+Lemma py_str_len_app (a b : string) : py_str_len (a ++ b)%string = py_str_len a + py_str_len b.
+Proof. unfold py_str_len. induction a as [|c a IH]; cbn [append String.length]; [lia|]. rewrite !Nat2Z.inj_succ, IH. lia. Qed.
+
+Lemma py_str_len_zeros n : py_str_len (py_zeros n) = Z.of_nat n.
+Proof. unfold py_str_len. induction n as [|n IH]; cbn [py_zeros String.length]; [reflexivity|]. now rewrite !Nat2Z.inj_succ, IH. Qed.
+
+(* at least one digit *)
+Lemma py_bin_digits_len_pos k : 1 <= py_str_len (py_bin_digits k).
+Proof.
+  assert (P : forall p, 1 <= py_str_len (py_bin_digits_pos p)).
+  { induction p as [p IH|p IH|]; cbn [py_bin_digits_pos]; rewrite ?py_str_len_app; [| |unfold py_str_len; simpl; lia];
+      unfold py_str_len at 2; simpl; lia. }
+  destruct k; cbn [py_bin_digits]; [unfold py_str_len; simpl; lia|apply P|apply P].
+Qed.
+
+(* k >= 0: no sign, the digits behind the padding *)
+Lemma py_format_bin_zfill_nonneg k n : 0 <= k ->
+  py_format_bin_zfill k n = (py_zeros (Z.to_nat (n - py_str_len (py_bin_digits k))) ++ py_bin_digits k)%string.
+Proof.
+  intros Hk. unfold py_format_bin_zfill. replace (k <? 0) with false by (symmetry; apply Z.ltb_ge; exact Hk).
+  cbn [append]. change (py_str_len EmptyString) with 0. now rewrite Z.sub_0_r.
+Qed.
+
+(* the length of the rendering: n, unless sign and digits need more *)
+Lemma py_str_len_format_bin_zfill k n :
+  py_str_len (py_format_bin_zfill k n) = Z.max n ((if k <? 0 then 1 else 0) + py_str_len (py_bin_digits k)).
+Proof.
+  unfold py_format_bin_zfill. rewrite !py_str_len_app, py_str_len_zeros.
+  destruct (k <? 0); [change (py_str_len "-") with 1|change (py_str_len EmptyString) with 0]; lia.
+Qed.
+
+Lemma py_format_bin_fspec_nonneg k n : 0 <= n -> py_format_bin_fspec k n = Ok (py_format_bin_zfill k n).
+Proof. intros Hn. unfold py_format_bin_fspec. now replace (n <? 0) with false by (symmetry; apply Z.ltb_ge; exact Hn). Qed.
+
+(* ---- a dict comprehension {k: v for ...} is the py_dict_set fold over its pairs; with pairwise different keys (the earlier key on
+   the left of eqb, as py_dict_set tests it) nothing is merged: the fold is the list of pairs itself *)
+Fixpoint py_keys_distinct {K} (eqb : K -> K -> bool) (l : list K) : Prop :=
+  match l with
+  | [] => True
+  | k :: r => (forall k', In k' r -> eqb k k' = false) /\ py_keys_distinct eqb r
+  end.
+
+Lemma py_dict_set_fresh {K V} (eqb : K -> K -> bool) (d : list (K * V)) k v :
+  (forall k', In k' (map fst d) -> eqb k' k = false) -> py_dict_set eqb d k v = d ++ [(k, v)].
+Proof.
+  induction d as [|[k0 v0] r IH]; intros H; cbn [py_dict_set app fst]; [reflexivity|].
+  rewrite (H k0 (or_introl eq_refl)). rewrite IH; [reflexivity|]. intros k' Hk'. apply H. now right.
+Qed.
+
+Lemma py_keys_distinct_snoc {K} (eqb : K -> K -> bool) (a : list K) k r :
+  py_keys_distinct eqb (a ++ k :: r) -> (forall k', In k' a -> eqb k' k = false) /\ py_keys_distinct eqb ((a ++ [k]) ++ r).
+Proof. rewrite <- app_assoc. cbn [app]. intros H. split; [|exact H]. induction a as [|x a IH]; [intros k' []|].
+  cbn [app py_keys_distinct] in H. destruct H as [Hx Ha]. intros k' [<-|Hin]; [apply Hx; apply in_or_app; right; now left|exact (IH Ha k' Hin)].
+Qed.
+
+Lemma py_dict_fold_distinct {K V} (eqb : K -> K -> bool) (l : list (K * V)) : forall acc,
+  py_keys_distinct eqb (map fst acc ++ map fst l) ->
+  fold_left (fun d_ kv_ => py_dict_set eqb d_ (fst kv_) (snd kv_)) l acc = acc ++ l.
+Proof.
+  induction l as [|[k v] r IH]; intros acc H; cbn [fold_left fst snd]; [now rewrite app_nil_r|].
+  cbn [map fst] in H. destruct (py_keys_distinct_snoc eqb _ _ _ H) as [Hf Hd].
+  rewrite (py_dict_set_fresh eqb acc k v Hf), IH; [now rewrite <- app_assoc|]. rewrite map_app. exact Hd.
+Qed.
